@@ -24,6 +24,7 @@ func runC02(c *Ctx, r *Report) {
 	c02R6(c, r, "C02.R6")
 	c02Router(c, r, "C02.R7")
 	c02R8(c, r, "C02.R8")
+	c01R1(c, r, "C02.R10") // every matcher of an AND-set starts at the first byte received so far (per-matcher freeze/unfreeze)
 	c13R6(c, r, "C02.R9") // the hand-off to a wrapped listener is a fallback: it receives the connection with its stream intact
 }
 
